@@ -87,6 +87,48 @@ pub fn exhaustive(
     (leaves, execs, truncated)
 }
 
+fn weight_of(c: &Step, x: &ExploreOpts) -> u64 {
+    match c {
+        Step::Signal { .. } => 2,
+        Step::Abort { .. } => 1,
+        Step::DropStream { .. } => 1,
+        Step::Open { ok: false, .. } => {
+            if x.fail_bias {
+                24
+            } else {
+                3
+            }
+        }
+        Step::Open { signal: true, .. } => 2,
+        Step::Call { .. } => 6,
+        _ => 8,
+    }
+}
+
+/// One random walk in ONE execution (no re-execution per step): for graphs too large for `random_walk`.
+/// Not for tokio mode (stream steps would be grouped differently on replay).
+pub fn random_walk_online(base: &Scenario, x: &ExploreOpts, hooks: bool, max_depth: usize, rng: &mut Rng) -> (Scenario, Vec<Value>) {
+    let mut depth = 0usize;
+    let mut choose = |enabled: &[Step]| -> Option<Step> {
+        if depth >= max_depth {
+            return None;
+        }
+        depth += 1;
+        let total: u64 = enabled.iter().map(|c| weight_of(c, x)).sum();
+        let mut t = rng.next() % total;
+        for c in enabled {
+            let wgt = weight_of(c, x);
+            if t < wgt {
+                return Some(c.clone());
+            }
+            t -= wgt;
+        }
+        enabled.last().cloned()
+    };
+    let (r, steps) = crate::phases::run_scenario_with(base, hooks, x, Some(&mut choose));
+    (with_steps(base, &steps), r.trace)
+}
+
 /// One random maximal walk. `weights` biases the choice per step kind.
 pub fn random_walk(
     base: &Scenario,
@@ -103,19 +145,7 @@ pub fn random_walk(
             return (scn, r.trace);
         }
         // weight: signals and aborts are rarer than completions
-        let weights: Vec<u64> = r
-            .enabled
-            .iter()
-            .map(|c| match c {
-                Step::Signal { .. } => 2,
-                Step::Abort { .. } => 1,
-                Step::DropStream { .. } => 1,
-                Step::Open { ok: false, .. } => if x.fail_bias { 24 } else { 3 },
-                Step::Open { signal: true, .. } => 2,
-                Step::Call { .. } => 6,
-                _ => 8,
-            })
-            .collect();
+        let weights: Vec<u64> = r.enabled.iter().map(|c| weight_of(c, x)).collect();
         let total: u64 = weights.iter().sum();
         let mut t = rng.next() % total;
         let mut idx = 0;
